@@ -594,6 +594,7 @@ fn write_cf_crate(dir: &Path, sds: &[StructD], seqs: &mut [CfSeq]) -> std::io::R
         line.push_str("; }");
         let _ = writeln!(src, "{line}");
     }
+    std::fs::create_dir_all(dir.join("src"))?;
     std::fs::write(dir.join("src/generated.rs"), src)?;
     std::fs::write(
         dir.join("src/lib.rs"),
